@@ -17,6 +17,10 @@ for d in sorted(glob.glob(os.path.join(os.path.dirname(os.path.abspath(__file__)
             return r
         return "no-failing-input-found" if v["violations"] else "not detected"
     own = w.get("checks", {}).get(prop)
+    if m.get("superseded_by"):
+        summ = " ".join(m.get("summary", "").split())
+        rows.append(f"| {sid} | {summ[:197] + '...' if len(summ) > 200 else summ} | no longer breaks the property on the repaired tree: {m['superseded_by'][:120]}... | |")
+        continue
     others = [f"{k}: {fmt(v)}" for k, v in w.get("checks", {}).items() if k != prop]
     if own is None or not own["with_failing_input"]:
         missed.append(sid)
